@@ -226,6 +226,10 @@ def build(ctx, cfg):
     else:
         scale = [SReal(z3.Real(f"scale{d}")) for d in range(ndim)]
         ctx.add(And([s.e > 0 for s in scale]))
+        if scale_mode == "iso":
+            # isotropic, non-unit voxel size: skimage's perimeter (hence circularity) rejects anisotropic spacing, so
+            # runs with those features enabled must produce models that replay on the real stack
+            ctx.add(And([s.e == scale[1].e for s in scale[2:]] + [scale[1].e != 1]))
         if scale_mode == "aniso":
             # anisotropic, non-unit voxel size (every model then replays with such a scale)
             ctx.add(And([s.e != 1 for s in scale[1:]] + [z3.Distinct([s.e for s in scale[1:]])]))
@@ -477,6 +481,7 @@ def _harness(ctx, cfg):
     else:
         act, exc, info = other(ctx, p, cfg)
     ctx.input("action", kind)
+    ctx.input("enable_mid", cfg.get("enable_mid"))
     ctx.env.update(action=kind)
     g, seg, tr = p.g, p.seg, p.tr
     S1 = Snap(p, k)
@@ -580,6 +585,17 @@ def _harness(ctx, cfg):
     ctx.witness("state_changed", Not(And(S.same_graph(S0, S1), S.same_attrs(S0, S1), seg_same(p.seg0, seg1))))
 
 
+    mid = cfg.get("enable_mid")
+    if mid:
+        # a feature is switched on BETWEEN the edit and its undo (enable/disable are not history entries): the stored
+        # action must not carry measurements that by-pass the annotators when it is inverted
+        tr.enable_features([mid])
+        if mid == "iou":
+            p.with_iou = True
+        else:
+            p.rp_keys = list(p.rp_keys) + [mid]
+        ctx.tag("mid_enabled")
+        post_obligations(":after_mid_enable", Snap(p, k), seg.c.copy())
     if want("C01") or want("C07") or want("C08") or want("C09") or want("C20") or want("C06"):
         del p.emitted[:]
         try:
